@@ -1,6 +1,7 @@
 \* emission (thorough): one printed run per terminal state (completed, or aborted at one failure point)
 CONSTANTS MaxCyc = 2  MaxBurn = 2  Tights = {FALSE, TRUE}  WithStarts = FALSE  MaxLevel = 400
 CONSTANTS RestartFrom = {"completed", "aborted"}  Phase2Fails = TRUE
+CONSTANT FailKinds = {"RuntimeError", "CustomError", "SystemExit", "KeyboardInterrupt", "BaseException"}
 CONSTANT Configs <- NoConfigs
 INIT RInit
 NEXT RNextR
@@ -16,4 +17,6 @@ INVARIANT MarkAndPlace
 INVARIANT RestartHoldsWholeHistory
 INVARIANT MergedUnchanged
 INVARIANT RestartIsInit
+INVARIANT ProbesServeLive
+INVARIANT RestartedStatesDiffer
 CHECK_DEADLOCK FALSE
